@@ -1,0 +1,11 @@
+//go:build verif
+
+package preprocess
+
+import "github.com/angelsolaorbaiceta/inkfem/math"
+
+// VerifExternalLoad exposes the externally applied load of the node, in local
+// coordinates (verification hook, build tag verif).
+func (n *Node) VerifExternalLoad() *math.Torsor {
+	return n.externalLocalLoad
+}
